@@ -26,9 +26,12 @@ import (
 	"io"
 	"math/rand"
 	"net/http"
+	"os"
 	"strings"
+	"sync/atomic"
 	"testing"
 	"testing/synctest"
+	"time"
 
 	"golang.org/x/net/quic"
 )
@@ -40,6 +43,7 @@ func TestVerifH3Frame(t *testing.T) {
 	}
 	items := env.Items()
 	batch := env.Int("batch", 150)
+	go vfH3FWatchdog(env) // outside the bubbles: real clock
 	for start := 0; start < len(items) && !env.Hung; start += batch {
 		end := min(start+batch, len(items))
 		synctest.Test(t, func(t *testing.T) {
@@ -55,6 +59,39 @@ func TestVerifH3Frame(t *testing.T) {
 		})
 	}
 	env.Finish(nil)
+}
+
+// A reader that spins (instead of blocking) never lets synctest.Wait return.  The watchdog runs on
+// the real clock, outside the bubbles: when no case has finished for a long time it reports the
+// current case as a hang, writes the result file and ends the process.
+var (
+	vfH3FProgress atomic.Int64
+	vfH3FCurrent  atomic.Value // vfH3FNow
+)
+
+type vfH3FNow struct {
+	b    int
+	kind string
+	tag  string
+}
+
+func vfH3FWatchdog(env *vfEnv) {
+	last, stuck := int64(-1), 0
+	for {
+		time.Sleep(time.Second)
+		if p := vfH3FProgress.Load(); p != last {
+			last, stuck = p, 0
+			continue
+		}
+		if stuck++; stuck < 45 {
+			continue
+		}
+		now, _ := vfH3FCurrent.Load().(vfH3FNow)
+		env.Hung = true
+		env.Mismatch(now.b, 0, "hang", "the reader blocks or returns", "no progress for 45 s of real time in "+now.tag)
+		env.Finish(nil)
+		os.Exit(1)
+	}
 }
 
 // ---------------------------------------------------------------------------- cases
@@ -493,6 +530,8 @@ func (h *vfH3FHarness) runCase(b int, c vfH3FCase, variant int, side string) {
 	run := &vfH3FRun{rd: &vfH3FReader{bs: bs}}
 	var peer *quic.Stream // the driver's end of the stream
 	tag := fmt.Sprintf("%s/%s/v%d/bs%d", c.Kind, side, variant, bs)
+	vfH3FCurrent.Store(vfH3FNow{b: b, kind: c.Kind, tag: tag})
+	defer vfH3FProgress.Add(1)
 
 	fatal := func(what string, err error) {
 		h.t.Fatalf("item %d %s: %s: %v", b, tag, what, err)
